@@ -19,3 +19,11 @@ Theorem fuel_enough : fuel_enough_statement.
 Proof. exact Proofs.fuel_enough. Qed.
 Theorem lower_table : lower_table_statement.
 Proof. exact Proofs.lower_table. Qed.
+
+(* the length bound len s < 2^63 (every Go string satisfies it) is necessary: *)
+Theorem valid_unbounded_refuted : ~ valid_statement_unbounded.
+Proof. exact Proofs.valid_statement_needs_bound. Qed.
+Theorem valid_print_unbounded_refuted : ~ valid_print_statement_unbounded.
+Proof. exact Proofs.valid_print_statement_needs_bound. Qed.
+Theorem has_suffix_fold_unbounded_refuted : ~ has_suffix_fold_statement_unbounded.
+Proof. exact Proofs.has_suffix_fold_statement_needs_bound. Qed.
